@@ -272,6 +272,47 @@ def mentions_derivative(case):
 KNOWN_PREDICATES = {}
 
 
+def run_add_remove(k):
+    """variables removed and added again through the API (a removed variable's place in the order of introduction may be
+    re-used): the state variables / derivatives / derived quantities are still exactly what the equations define"""
+    import sympy
+    from cellmlmanip.model import Model
+    rng = random.Random(k)
+    m = Model('m%d' % k)
+    m.units.add_unit('per_s', '1 / second')
+    t = m.add_variable('t', 'second')
+    q = m.create_quantity
+    live, bad = {}, []
+
+    def add(name, role):
+        v = m.add_variable(name, 'dimensionless', initial_value=1.0 if role == 'state' else None)
+        if role == 'state':
+            m.add_equation(sympy.Eq(sympy.Derivative(v, t), q(rng.choice([1.0, -2.0]), 'per_s')))
+        elif role == 'derived':
+            m.add_equation(sympy.Eq(v, q(2.0, 'dimensionless') * t * q(1.0, 'per_s')))
+        live[name] = (v, role)
+    n = 0
+    add('v0', 'state')       # from the start there is an ODE, so that t is the free variable
+    for step in range(rng.randint(4, 9)):
+        unused = [nm for nm, (v, role) in live.items() if role == 'plain']
+        if unused and rng.random() < 0.4:
+            nm = rng.choice(unused)
+            m.remove_variable(live.pop(nm)[0])
+        else:
+            n += 1
+            add('v%d' % n, rng.choice(['state', 'state', 'derived', 'plain', 'plain']))
+        want_s = sorted(nm for nm, (v, role) in live.items() if role == 'state')
+        want_d = sorted(nm for nm, (v, role) in live.items() if role == 'derived')
+        got_s = [v.name for v in m.get_state_variables()] if want_s else []
+        got_dv = [str(d.args[0].name) for d in m.get_derivatives()] if want_s else []
+        got_d = [v.name for v in m.get_derived_quantities()] if (want_s or want_d) else []
+        if sorted(got_s) != want_s or sorted(got_dv) != want_s or sorted(got_d) != want_d:
+            bad.append(('after %d add / remove steps: states %s, derivatives of %s, derived %s; the equations define states %s and '
+                        'derived quantities %s' % (step + 1, got_s, got_dv, got_d, want_s, want_d), {'add_remove': k}))
+            break
+    return bad
+
+
 def run(ctx):
     n = 150 if ctx.tier == 'quick' else 3000
     ctx.rule = ('random well-formed-core systems over 4-8 variables with rational right-hand sides (sums, products, squares, '
@@ -295,6 +336,11 @@ def run(ctx):
     msm.correspond(ctx, cases, [p for p, _ in results], 'C10', fn=FN, with_rhs=True)
     for c in cases[:2]:
         ctx.sample({'base': c['base'], 'pool': c['pool'][:4], 'ops': c['ops'][:10]})
+    ks = [ctx.seed * 1000 + i for i in range(40 if ctx.tier == 'quick' else 600)]
+    for k, bad in zip(ks, vlib.pmap(run_add_remove, ks)):
+        ctx.count(case_key=('add-remove', k), kind='add-remove')
+        for what, detail in bad:
+            ctx.violation(what, detail)
     # "none of this depends on how the model was reached": unit conversion is one way to reach a model
     from props import c08
     c08.conversion_stratum(ctx, 'C10', 40 if ctx.tier == 'quick' else 600)
@@ -314,6 +360,9 @@ def load_corpus():
 
 
 def replay(ctx, case):
+    if 'add_remove' in case:
+        bad = run_add_remove(case['add_remove'])
+        return bad[0][0] if bad else None
     if 'conversion_case' in case:
         import cvlib
         bad = [b for b in cvlib.conversion_coherence(case['conversion_case']) if b[0] in ('C10', 'C08')]
